@@ -241,7 +241,7 @@ func (r *Runner) TextQuery(sh *shard.Shard, p Prop, leaves []Q) {
 		}
 		hits[i] = M{"id": IDOf(sr.Id), "s": scaled(*sr.Score, 100000), "h4": scaled(sr.HybridScore, 400000)}
 	}
-	r.TW.Emit("Text", M{"p": p.Name, "terms": sortedKeys(tf), "op": op, "limit": limit, "w4": w4, "filter": af, "hits": hits, "tol": 8})
+	r.TW.Emit("Text", M{"p": p.Name, "terms": sortedKeys(tf), "op": op, "limit": limit, "w4": w4, "filter": af, "hits": hits, "tol": 8, "rep": b2i(r.afterRepeat)})
 }
 
 // RankPanel issues k ranking queries per ranking property on the given shard.
@@ -408,4 +408,31 @@ func graphOf(db diskstore.DiskStore, p Prop) (M, error) {
 		ns[i] = []any{n.id, n.edges}
 	}
 	return M{"nodes": ns, "vecs": vecs, "max": maxNode, "hasmax": b2i(hasMax)}, nil
+}
+
+// RepeatProbe ends a history of a configuration with a text index: one update
+// request names a point twice and rewrites its text both times; the document
+// must be the sequential merge (Get), the text queries that follow are marked.
+func (r *Runner) RepeatProbe(leaves []Q) {
+	var tp *Prop
+	for i := range r.Cfg.Props {
+		if r.Cfg.Props[i].Type == models.IndexTypeText {
+			tp = &r.Cfg.Props[i]
+			break
+		}
+	}
+	ids := r.pickIDs(1, 1)
+	if tp == nil || len(ids) == 0 || !r.believedLive[ids[0]] || r.Cfg.Mem {
+		return
+	}
+	b := []GenPoint{r.gen(ids[0], true, 1.0), r.gen(ids[0], true, 1.0)}
+	if r.Update(b) != nil {
+		return
+	}
+	r.Get(r.allIDs())
+	r.afterRepeat = true
+	for i := 0; i < 8; i++ {
+		r.TextQuery(r.Shard, *tp, leaves)
+	}
+	r.afterRepeat = false
 }
